@@ -235,6 +235,11 @@ class Report:
             exit_code = 3
 
         os.makedirs(os.path.join(ROOT, "replays", pid), exist_ok=True)
+        for old in os.listdir(os.path.join(ROOT, "replays", pid)):
+            try:
+                os.unlink(os.path.join(ROOT, "replays", pid, old))  # replay files belong to one run
+            except OSError:
+                pass
         # group refuted obligations by name (one report per obligation name + site)
         seen = set()
         for ob in refuted:
